@@ -131,7 +131,11 @@ CHECKS = {'C01': {'level': 'exploration',
                  'hash of the trace (incl. queries); counters.queries / counters.nontrivial_queries give the totals | since round 5: one query in '
                  'eight has no filter at all; in one query in four another transaction (a nested collection-level DeleteAt plus a failing insert) '
                  'runs between Count and Range - the selection is a snapshot, Range must visit exactly the rows Count counted; the same generated '
-                 'queries also run on a collection that replays the change stream (indexes created there as well)',
+                 'queries also run on a collection that replays the change stream (indexes created there as well) | since round 8: half of the '
+                 'numeric thresholds sit on, or one beside, a value that a live row holds in the filtered column; one layout in three stores '
+                 'full-range, edge-biased integers (all 64 bits in use: a filter that goes through float64 or compares in another width decides such '
+                 'rows wrongly) - Sum and Avg are then not judged for the integer columns (a wrapped sum cannot be told from a fitting one), the '
+                 'filters, Count, Range, Min and Max are',
          'assumptions': ['aggregate-safe values: sums are exact in any order; Sum/Avg are not judged when the true sum does not fit the column type '
                          '(counted)',
                          'a fresh Union(missing, ...) is not generated (the text does not define it); WithValue is not applied to index names; '
